@@ -669,6 +669,7 @@ def explore(S, docs, tabs=(2,), prop='C03', widths=(0, 40, 1 << 30)):
 
 
 RANGE_DOCS = [
+    '#if(true) [a]\n', '#{ not(true) }\n', '#{ return(none) }\n', '#while(false) { }\n', '#{ a or(false) }\n', '#{ x in(1, 2) }\n', '#let x =(1)\n', '#f(a,(1))\n', '#(1)em\n', '_#(true)_ x\n', '$x_#(1)y$\n', '#{ -(1) }\n', '#let f = x =>(1)\n',
     '$ #a.b(\n  1, 2\n).c(2) + x $\n', '$ #data.filter(pred).map(func).sum() + 1 $\n', '$ vec(#a.b(\n1, 2).c(3) x, y) $\n', '#let f(x) = {\n  let y = g(x,\n  1)\n  y\n}\n', 'a #f(1,\n 2) b\n\nc\n',
     '= H\n- a #f( 1 ,2 )\n  - b\n', '#table(columns: 2, [a], [ b],\n [c])\n', '$ mat(1, 2; 3, 4) + f(x, y) $\n', '#f[a #g( 1 ) b][c]\n', '#{\n  if a { b } else { c }\n  for x in y { z( 1 ,2) }\n}\n',
     '#import "a.typ": c ,b\n#show: it => it\n', '#let x = (a: 1,\n  b: (2, 3))\n', 'first\n\nsecond #x.y( 1 ).z\n', '$ a_#f( 1 ) + b^(c  d) $\n', '#f(x => x +\n 1, ..y)\n', '#(a.b)( 1 )[c]\n',
